@@ -14,7 +14,7 @@ DEFECTS = ["ot-html-substring", "ot-p-end-dialog-datagrid", "ot-p-end-parent-unc
 
 def real_filter(tokens):
     from html5lib.filters.optionaltags import Filter
-    return list(Filter(copy.deepcopy(tokens)))
+    return tok.consume(Filter(copy.deepcopy(tokens)))
 
 
 def cfg(mode, wide, maxlen, alphabet, export, checkprop, defects):
@@ -47,6 +47,57 @@ WITNESS = {
     "ot-body-start-before-meta-link-template": "<body><link rel=stylesheet>",
     "ot-foreign-unchecked": "<svg><li>a</li><li>b</li></svg>",
 }
+
+
+def _tk(t, n=None, d=None):
+    r = {"t": t, "n": tok.NONE if n is None else tok.enc(n), "ns": tok.NONE, "a": [], "d": [] if d is None else tok.enc(d), "p": tok.NONE, "s": tok.NONE}
+    if t in ("StartTag", "EndTag", "EmptyTag"):
+        r["ns"] = tok.enc("http://www.w3.org/1999/xhtml")
+    return r
+
+
+PARENT = {"p": ["div"], "li": ["ul"], "dd": ["dl"], "dt": ["dl"], "rt": ["ruby"], "rp": ["ruby"], "option": ["select"], "optgroup": ["select"],
+          "colgroup": ["table"], "caption": ["table"], "thead": ["table"], "tbody": ["table"], "tfoot": ["table"],
+          "tr": ["table", "tbody"], "td": ["table", "tbody", "tr"], "th": ["table", "tbody", "tr"], "head": ["html"], "body": ["html"]}
+
+
+def window_sweep():
+    """every element whose end (or start) tag the filter can remove x every follower name: the names of the specification's
+    tables, two ordinary names, and every name literal found in the filter's own source (a name the implementation
+    special-cases is therefore always a follower).  Token streams are built directly; Trace_OptionalTags judges them."""
+    from .. import literals
+    spec_names = sorted(set(x.strip("</>").split()[0] for x in OT_PIECES if x.startswith("<") and not x.startswith("<!")))
+    names = spec_names + ["x-y", "span"] + literals.extra_names(spec_names, "html5lib/filters/optionaltags.py")
+    names = [n for n in dict.fromkeys(names) if n not in ("data", "name", "type")]
+    out = []
+    for t, chain in sorted(PARENT.items()):
+        pre = [_tk("StartTag", c) for c in chain]
+        post = [_tk("EndTag", c) for c in reversed(chain)]
+        for f in names:
+            out.append(pre + [_tk("StartTag", t), _tk("Characters", d="x"), _tk("EndTag", t), _tk("StartTag", f), _tk("EndTag", f)] + post)
+            out.append(pre + [_tk("StartTag", t), _tk("StartTag", f), _tk("EndTag", f), _tk("EndTag", t)] + post)
+        for mid in ([_tk("SpaceCharacters", d=" ")], [_tk("Comment", d="c")], [_tk("Characters", d="y")], []):
+            out.append(pre + [_tk("StartTag", t), _tk("EndTag", t)] + mid + post)
+            out.append(pre + [_tk("StartTag", t)] + mid + [_tk("EndTag", t)] + post)
+    return out
+
+
+def long_streams():
+    """streams whose length passes every size the implementation could batch or buffer at: the integer literals of the
+    filter's source (and of filters/base.py) and some powers of two, each +-1, with an omissible end tag, a kept end tag and a
+    start tag landing on every index near the boundary"""
+    from .. import literals
+    out = []
+    unit = [_tk("StartTag", "p"), _tk("Characters", d="a"), _tk("EndTag", "p"), _tk("Characters", d="t"),
+            _tk("StartTag", "ul"), _tk("StartTag", "li"), _tk("Characters", d="b"), _tk("EndTag", "li"), _tk("EndTag", "ul")]
+    ns = [n for n in literals.sizes("html5lib/filters/optionaltags.py", "html5lib/filters/base.py", extra=(256, 1024, 2048)) if n >= 200]
+    for n in sorted(set(x for x in ns if x % 1 == 0))[::3] + [1024, 2048]:      # n-1, n, n+1 are covered by the shifts below
+        for shift in range(len(unit)):
+            body = [_tk("Characters", d="s")] * shift
+            while len(body) < n + 12:
+                body += unit
+            out.append([_tk("StartTag", "div")] + body + [_tk("EndTag", "div")])
+    return out
 
 
 def streams(ctx, n):
@@ -145,6 +196,22 @@ def run(ctx):
         if rec["v"] != "finding":
             ctx.violation("filter output on a concatenated stream differs from the machine (hidden state?): %s at token %d" % (rec["v"], rec["l"]),
                           {"kind": "trace", "source": "concatenation of MC streams", "inp": tr["inp"], "verdict": rec})
+    # 2c. follower sweep over specification names + names harvested from the filter's source; long streams around size thresholds
+    sweep = window_sweep()
+    longs = long_streams()
+    ctx.notes["window_sweep_streams"] = len(sweep)
+    ctx.notes["long_streams"] = [len(longs), max(len(x) for x in longs)]
+    sw = []
+    for st in sweep + longs:
+        out = [tok.proj_token(t) for t in real_filter([tok.unproj_token(t) for t in st])]
+        sw.append({"inp": st, "out": out, "judge": True})
+    for tr, rec in core.validate_traces(ctx, "Trace_OptionalTags", sw, "sweep", consts=consts0):
+        if rec["v"] == "finding":
+            for nm in rec["f"]:
+                ctx.known_finding(nm, "illegal removal explained by " + nm, {"stream": [tok.show(t) for t in tr["inp"][:12]]})
+        else:
+            ctx.violation("follower sweep / long stream rejected by Trace_OptionalTags: %s at token %d" % (rec["v"], rec["l"]),
+                          {"kind": "trace", "source": "window sweep", "inp": tr["inp"], "verdict": rec})
     # 3. code -> spec
     traces, meta = [], []
     for d, tb, s in streams(ctx, 800 if ctx.quick else 15000):
